@@ -12,7 +12,10 @@ PROP = dict(
          "variant payload, function parameter, lambda parameter, array element of a let array / of a var array / nested, struct "
          "field plain / nested / of an array element, function name; captured let / var / destructured var / for / match / "
          "function parameter / lambda parameter assigned inside a lambda, a nested lambda or a task; a nested lambda's own local; "
-         "element and field of a captured object) x 6 operators x 3 contexts (top level, function body, lambda body; captured "
+         "element and field of a captured object; and 195 capture-only forms: element / field assignments inside a lambda, a "
+         "nested lambda or a task where an outer binding (let, var, for variable, function parameter, match binding) occurs "
+         "ONLY as the index, the inner or outer index of a[i][j], the index of s.f[i], the index of a[i].f, the right-hand "
+         "side, or the array / struct expression of the target) x 6 operators x 3 contexts (top level, function body, lambda body; captured "
          "forms at top level) x integer operand pairs (6 fixed incl. overflow and zero divisor + 2 (quick) / 40 (thorough) "
          "seeded) and 2 float pairs; each program compiled and run for real, the assigned location printed afterwards; "
          "distinct = distinct (form, operator, operands); non-trivial = every case (each one decides accept/diagnostic)",
